@@ -289,6 +289,36 @@ func c12Run(c *core.Ctx, idx int) {
 				okAll = false
 				return
 			}
+			// the other ways in (Insert, Replace) and a Condition whose option is raised AFTER it took the value: whatever
+			// happens to the native form happens to this form
+			nv := stackage.Stack{}
+			if cs, ok := AsStack(v); ok {
+				nv = cs
+			}
+			gA := stackage.And().SetNoNesting(true).Push("p", "q")
+			gN := stackage.And().SetNoNesting(true).Push("p", "q")
+			ia, in := gA.Insert(v, 1), gN.Insert(nv, 1)
+			ra, rn := gA.Replace(v, 0), gN.Replace(nv, 0)
+			if ia != in || ra != rn || gA.Len() != gN.Len() || gA.IsNesting() != gN.IsNesting() {
+				fail("no-nesting:Insert/Replace", "into a no-nesting stack: Insert/Replace of alias form %d gave %v/%v (Len %d, IsNesting %v), of the native Stack %v/%v (Len %d, IsNesting %v)", n.Alias, ia, ra, gA.Len(), gA.IsNesting(), in, rn, gN.Len(), gN.IsNesting())
+				okAll = false
+				return
+			}
+			cA := stackage.Cond("k", stackage.Eq, v).SetNoNesting(true)
+			cN := stackage.Cond("k", stackage.Eq, nv).SetNoNesting(true)
+			if cA.IsNesting() != cN.IsNesting() || cA.Len() != cN.Len() || cA.String() != cN.String() {
+				fail("no-nesting:late", "Condition holding alias form %d with no-nesting raised afterwards: IsNesting %v Len %d, native %v %d", n.Alias, cA.IsNesting(), cA.Len(), cN.IsNesting(), cN.Len())
+				okAll = false
+				return
+			}
+			pA, pN := stackage.And().Push("a", cA), stackage.And().Push("a", cN)
+			ta, oka := pA.Traverse(1, 0)
+			tn, okn := pN.Traverse(1, 0)
+			if oka != okn || !SameValue(ta, tn) {
+				fail("no-nesting:late", "Traverse through a late-no-nesting Condition holding alias form %d: (%s,%v), native (%s,%v)", n.Alias, Show(ta), oka, Show(tn), okn)
+				okAll = false
+				return
+			}
 			cd := stackage.Cond("k", stackage.Eq, "keep").SetNoNesting(true).SetExpression(v)
 			if cd.Expression() != "keep" {
 				fail("no-nesting", "a no-nesting Condition accepted alias form %d as expression", n.Alias)
